@@ -19,6 +19,11 @@
 (*   ubd       << [amt, at] >>  unbonding entries (balance, completion time)   *)
 (*   authz, pcgrant, feegrant  BOOLEAN  grants given by the account           *)
 (*   isval     BOOLEAN   the account operates a validator                     *)
+(*   ghost     BOOLEAN   the account WAS a clawback vesting account and has been  *)
+(*             converted to a plain account: start..orig then still hold the last  *)
+(*             stored schedule (carried by this specification, see Carry), df the   *)
+(*             amount currently staked - the original lockup keeps binding the      *)
+(*             coins until it ends                                                  *)
 (* Coins are total functions denom -> decimal string over DOMAIN bank.        *)
 (*                                                                         *)
 (* PROPERTY LAYER P (the verdict).  Written from the statement; every term is  *)
@@ -59,6 +64,15 @@
 (*        transaction delegated (it is the term subtracted inside Locked: if    *)
 (*        it can grow without a delegation the formula protects nothing);        *)
 (*        a merge may re-base it to the amount really bonded + unbonding         *)
+(*   converted-while-locked  a transaction was accepted that turned the account    *)
+(*        into a plain account while its schedule still had locked or unvested     *)
+(*        coins (whatever is spent afterwards is judged by debit-below-locked        *)
+(*        against the lock of the last stored schedule)                             *)
+(*   merge-schedule-differs  after an accepted merge of a grant the stored lockup   *)
+(*        (vesting) schedule is not the union of the release events of the stored    *)
+(*        lockup (vesting) schedule before it and of the grant's lockup (vesting)    *)
+(*        periods: Locked is computed from the stored schedule, so a grant stored    *)
+(*        under a wrong schedule would silently move the lock                        *)
 (*   failed-tx-*          a failed transaction changed the account, moved more   *)
 (*        than its declared fee, or paid the fee out of locked coins             *)
 (* P never asserts that a transaction is accepted.                             *)
@@ -88,7 +102,8 @@ CONSTANTS
     Grants,      \* subset of BOOLEAN: are authz / precompile / fee grants in place
     Codes,       \* subset of BOOLEAN: does the account carry contract code
     KindsX,      \* the bank-debit paths the exhaustive model walks (they share one effect function in M)
-    Defects      \* subset of {"deleg_unvested_unchecked", "locked_ignores_unvested", "merge_rebases_later_grant"}
+    Defects      \* subset of {"deleg_unvested_unchecked", "locked_ignores_unvested", "merge_rebases_later_grant",
+                 \*            "convert_ignores_delegated_locked"}
 
 ---------------------------------------------------------------------------
 (* Coins helpers beyond Schedule *)
@@ -118,7 +133,28 @@ LockedP(v, t)   == LockedR(v, t, "cum")
 UnvestedP(v, t) == UnvestedR(v, t, "cum")
 
 \* the invariant the statement is about (used on the model, and as a diagnostic on traces)
-BalanceCoversLock(v, t) == ~v.exists \/ CLE(LockedP(v, t), v.bank)
+Bound(v) == v.exists \/ v.ghost
+BalanceCoversLock(v, t) == ~Bound(v) \/ CLE(LockedP(v, t), v.bank)
+
+\* the schedule still restricts coins at t (weaker reading)
+StillRestricted(v, t) ==
+    \/ ~CIsZero(VLPos(CSub(v.orig, UnlockedR(v, t, "cum"))))
+    \/ ~CIsZero(VLPos(UnvestedR(v, t, "cum")))
+
+\* A converted account is projected by the chain without a schedule.  Carry keeps the last stored
+\* schedule on it (ghost) and counts what is staked now as its tracked delegation.
+CarryV(old, new) ==
+    IF new.exists \/ ~Bound(old) THEN new
+    ELSE [new EXCEPT !.ghost = TRUE, !.start = old.start, !.end = old.end, !.lockup = old.lockup,
+                     !.vesting = old.vesting, !.orig = old.orig, !.dv = CZero(DOMAIN new.bank),
+                     !.df = [d \in DOMAIN new.bank |-> IF d = BondDenom THEN BigAdd(new.bonded, new.unbonding) ELSE "0"]]
+Carry(s, t) == [t EXCEPT !.va = [a \in DOMAIN t.va |-> IF a \in DOMAIN s.va THEN CarryV(s.va[a], t.va[a]) ELSE t.va[a]]]
+
+\* the stored schedules after a merge are the unions of the release events (grant g = [start, lockup, vesting])
+MergedAsExpected(pre, post, g) ==
+    LET D == DOf(post) IN
+    /\ BagEq(Events(D, LockS(post)), Union(D, LockS(pre), Sched(g.start, g.lockup)))
+    /\ BagEq(Events(D, VestS(post)), Union(D, VestS(pre), Sched(g.start, g.vesting)))
 
 DelegKinds == {"delegate", "exec_delegate", "pc_delegate", "pc_delegate_contract",
                "create_validator", "exec_create_validator", "pc_create_validator", "pc_create_validator_contract",
@@ -136,13 +172,13 @@ Frame(v) == <<v.exists, v.start, v.end, v.lockup, v.vesting, v.orig, v.df, v.dv,
 
 TrackedOver(e, pre, post, dl) ==
     LET D    == DOf(post)
-        tq   == IF pre.exists THEN Tracked(pre) ELSE CZero(D)
+        tq   == IF Bound(pre) THEN Tracked(pre) ELSE CZero(D)
         base == IF e.ev \in MergeKinds
                 THEN VLMax(tq, VLOne(D, BondDenom, BigAdd(pre.bonded, pre.unbonding))) ELSE tq
     IN \E d \in D : BigLT(BigAdd(base[d], IF d = BondDenom THEN dl ELSE "0"), Tracked(post)[d])
 
 \* how many unvested coins are missing from the balance (zero on every state a correct chain reaches)
-Deficit(v, t) == IF v.exists THEN BigMax("0", BigSub(UnvestedP(v, t)[BondDenom], v.bank[BondDenom])) ELSE "0"
+Deficit(v, t) == IF Bound(v) THEN BigMax("0", BigSub(UnvestedP(v, t)[BondDenom], v.bank[BondDenom])) ELSE "0"
 
 \* the set of clauses a recorded step e : s -> t breaks
 Broken(e, s, t) ==
@@ -156,16 +192,22 @@ Broken(e, s, t) ==
              dl   == IF isD THEN e.args.deleg ELSE "0"
          IN
          IF e.ok
-         THEN IF ~post.exists THEN {}
-              ELSE (IF ~isD /\ \E d \in D : /\ BigLT(post.bank[d], pre.bank[d])
+         THEN IF ~Bound(post) THEN {}
+              ELSE (IF pre.exists /\ ~post.exists /\ StillRestricted(pre, now)
+                    THEN {"converted-while-locked"} ELSE {})
+                   \cup
+                   (IF e.ev \in MergeKinds /\ pre.exists /\ post.exists /\ ~MergedAsExpected(pre, post, e.args.grant)
+                    THEN {"merge-schedule-differs"} ELSE {})
+                   \cup
+                   (IF ~isD /\ \E d \in D : /\ BigLT(post.bank[d], pre.bank[d])
                                             /\ BigLT(post.bank[d], LockedP(post, now)[d])
                     THEN {"debit-below-locked"} ELSE {})
                    \cup
                    (IF isD /\ BigLT(Deficit(pre, now), Deficit(post, now))
                     THEN {"delegated-unvested"} ELSE {})
                    \cup
-                   (IF TrackedOver(e, pre, post, dl) THEN {"tracked-overcount"} ELSE {})
-         ELSE IF ~pre.exists THEN {}
+                   (IF ~(pre.exists /\ ~post.exists) /\ TrackedOver(e, pre, post, dl) THEN {"tracked-overcount"} ELSE {})
+         ELSE IF ~Bound(pre) THEN {}
               ELSE (IF Frame(pre) # Frame(post) THEN {"failed-tx-changed-account"} ELSE {})
                    \cup
                    (IF \E d \in D : BigLT(e.args.fee[d], BigSub(pre.bank[d], post.bank[d]))
@@ -179,7 +221,8 @@ StepOK(e, s, t) == Broken(e, s, t) = {}
 
 \* what identifies a failing step: the path and what the account still holds under restriction
 Phase(v, t) ==
-    IF ~v.exists THEN "none"
+    IF ~Bound(v) THEN "none"
+    ELSE IF v.ghost THEN (IF StillRestricted(v, t) THEN "converted-still-locked" ELSE "converted")
     ELSE IF ~CIsZero(VLPos(UnvestedR(v, t, "read"))) THEN "unvested"
     ELSE IF ~CIsZero(VLPos(CSub(v.orig, UnlockedR(v, t, "read")))) THEN "locked"
     ELSE "free"
@@ -413,8 +456,31 @@ MAcct(v, t, ev, args) ==
       [] ev = "clawback" -> MClawback(v, t)
       [] ev = "merge" ->
            IF v.exists THEN R(TRUE, MMerge(v, args.grant, FALSE)) ELSE R(FALSE, v)
+      [] ev \in {"convert_back", "exec_convert_back"} ->
+           \* MsgConvertVestingAccount: nothing vesting any more and HasLockedCoins false (the lockup schedule has
+           \* released everything; the named defect asks LockedCoins instead, which discounts delegated coins)
+           LET p    == IF ev = "convert_back" THEN PayFee(v, t, f) ELSE R(v.authz, v)
+               gate == IF "convert_ignores_delegated_locked" \in Defects THEN CIsZero(LockedM(p.v, t))
+                       ELSE CIsZero(VLPos(CSub(v.orig, UnlockedR(v, t, "read"))))
+           IN IF ~p.ok THEN R(FALSE, v)
+              ELSE IF v.exists /\ CIsZero(VLPos(UnvestedR(v, t, "read"))) /\ gate
+                   THEN R(TRUE, [p.v EXCEPT !.exists = FALSE, !.ghost = FALSE, !.start = 0, !.end = 0, !.lockup = <<>>, !.vesting = <<>>,
+                                            !.orig = CZero(D), !.df = CZero(D), !.dv = CZero(D)])
+                   ELSE R(FALSE, p.v)
       [] ev \in {"convert_into", "convert_into_stake"} ->
-           IF ~v.exists THEN R(FALSE, v)
+           IF ~v.exists
+           THEN \* ApplyVestingSchedule on a plain account: it becomes a vesting account with the grant's schedule
+                IF v.code THEN R(FALSE, v)
+                ELSE LET g  == args.grant
+                         gc == Total(D, Sched(g.start, g.vesting))
+                         w  == [v EXCEPT !.exists = TRUE, !.ghost = FALSE, !.start = g.start, !.lockup = g.lockup, !.vesting = g.vesting,
+                                         !.end = g.start + IMax(TotalLength(g.lockup), TotalLength(g.vesting)),
+                                         !.orig = gc, !.bank = CAdd(@, gc), !.dv = CZero(D),
+                                         !.df = VLOne(D, BondDenom, BigAdd(v.bonded, v.unbonding))]
+                         vs == Read(D, Sched(g.start, g.vesting), t)[BondDenom]
+                     IN IF ev = "convert_into" THEN R(TRUE, w)
+                        ELSE IF BigSign(vs) > 0 /\ BigLE(vs, w.bank[BondDenom]) THEN R(TRUE, Delegated(w, vs))
+                        ELSE R(FALSE, v)
            ELSE LET w  == MMerge(v, args.grant, "merge_rebases_later_grant" \in Defects)
                     vs == Read(D, Sched(args.grant.start, args.grant.vesting), t)[BondDenom]
                 IN IF ev = "convert_into" THEN R(TRUE, w)
@@ -452,11 +518,11 @@ InitAcct(lk, vs, extra, g, cd) ==
      end |-> IMax(TotalLength(lk), TotalLength(vs)),
      lockup |-> lk, vesting |-> vs, orig |-> orig, df |-> ZC, dv |-> ZC,
      bank |-> CAdd(orig, VLOne(Denoms, BondDenom, extra)), bonded |-> "0", unbonding |-> "0", ubd |-> <<>>,
-     authz |-> g, pcgrant |-> g, feegrant |-> g, isval |-> FALSE]
+     authz |-> g, pcgrant |-> g, feegrant |-> g, isval |-> FALSE, ghost |-> FALSE]
 
 EmptyAcct ==
     [exists |-> FALSE, code |-> FALSE, start |-> 0, end |-> 0, lockup |-> <<>>, vesting |-> <<>>, orig |-> ZC, df |-> ZC, dv |-> ZC,
-     bank |-> ZC, bonded |-> "0", unbonding |-> "0", ubd |-> <<>>, authz |-> FALSE, pcgrant |-> FALSE, feegrant |-> FALSE, isval |-> FALSE]
+     bank |-> ZC, bonded |-> "0", unbonding |-> "0", ubd |-> <<>>, authz |-> FALSE, pcgrant |-> FALSE, feegrant |-> FALSE, isval |-> FALSE, ghost |-> FALSE]
 
 Init ==
     /\ hist = <<>> /\ ini = EmptyAcct /\ slashed = FALSE
@@ -468,7 +534,7 @@ V  == st.va[A]
 Args(c, f, x, how) == [acct |-> A, amt |-> c, fee |-> f, deleg |-> x, how |-> how]
 Do(ev, args) ==
     LET r == MResult(st, ev, args) IN
-    /\ st' = r.post
+    /\ st' = Carry(st, r.post)
     /\ hist' = Append(hist, [ev |-> ev, args |-> args, ok |-> r.ok])
     /\ UNCHANGED <<ini, slashed>>
 
@@ -501,6 +567,7 @@ RebondAct ==
       \E x \in {V.ubd[i].amt, BigAdd(V.ubd[i].amt, "1"), "1"} :
         Do(ev, [acct |-> A, amt |-> ZC, fee |-> ZC, deleg |-> x, how |-> "-", at |-> V.ubd[i].at])
 ClawbackAct == Do("clawback", Args(ZC, ZC, "0", "-"))
+ConvertBackAct == \E ev \in {"convert_back", "exec_convert_back"} : Do(ev, Args(ZC, ZC, "0", "-"))
 GrantChoices ==
     {[start |-> s0, lockup |-> <<Period(l1, VLOne(Denoms, BondDenom, "1"))>>, vesting |-> <<Period(l2, VLOne(Denoms, BondDenom, "1"))>>] :
         s0 \in {0, st.now}, l1 \in Lens, l2 \in Lens}
@@ -514,7 +581,7 @@ FundAct == Do("fund_extra", Args(VLOne(Denoms, BondDenom, "1"), ZC, "0", "-"))
 \* time: the block ends (matured unbondings are paid out and un-tracked), the next one begins dt later
 Tick(dt) ==
     /\ st.now + dt <= MaxNow
-    /\ st' = [st EXCEPT !.now = @ + dt, !.va[A] = EndBlockV(V, st.now + dt)]
+    /\ st' = Carry(st, [st EXCEPT !.now = @ + dt, !.va[A] = EndBlockV(V, st.now + dt)])
     /\ hist' = Append(hist, [ev |-> "tick", args |-> [dt |-> dt], ok |-> TRUE])
     /\ UNCHANGED <<ini, slashed>>
 \* slashing: the bonded stake and every unbonding entry lose one unit (abstract; P does not depend on the size)
@@ -523,14 +590,14 @@ Slash ==
     /\ LET nb  == IF BigSign(V.bonded) > 0 THEN BigSub(V.bonded, "1") ELSE V.bonded
            nu  == [i \in 1..Len(V.ubd) |-> [V.ubd[i] EXCEPT !.amt = BigMax("0", BigSub(@, "1"))]]
            tot == FoldSet(LAMBDA i, acc : BigAdd(acc, nu[i].amt), "0", 1..Len(nu))
-       IN st' = [st EXCEPT !.va[A].bonded = nb, !.va[A].ubd = nu, !.va[A].unbonding = tot]
+       IN st' = Carry(st, [st EXCEPT !.va[A].bonded = nb, !.va[A].ubd = nu, !.va[A].unbonding = tot])
     /\ hist' = Append(hist, [ev |-> "slash", args |-> [dt |-> 0], ok |-> TRUE])
     /\ slashed' = TRUE /\ UNCHANGED ini
 
 Next ==
     /\ Len(hist) < MaxLen
     /\ \/ DebitAct \/ EthAct \/ FeeAct \/ LiquidateAct \/ DelegAct \/ UndelegAct \/ RebondAct
-       \/ ClawbackAct \/ MergeAct \/ FundAct \/ Slash
+       \/ ClawbackAct \/ ConvertBackAct \/ MergeAct \/ FundAct \/ Slash
        \/ \E dt \in Dts : Tick(dt)
 
 Spec == Init /\ [][Next]_vars
@@ -540,9 +607,9 @@ Spec == Init /\ [][Next]_vars
 \* (a slash destroys staked coins that stay tracked as delegated until a merge re-bases the
 \* tracking to what is really staked: from then on the lock can exceed the balance although no
 \* coin left the account, hence the ghost `slashed`)
-MInv_P == slashed \/ (BalanceCoversLock(V, st.now) /\ (V.exists => CLE(LockedR(V, st.now, "read"), V.bank)))
+MInv_P == slashed \/ (BalanceCoversLock(V, st.now) /\ (Bound(V) => CLE(LockedR(V, st.now, "read"), V.bank)))
 \* ... unvested coins stay in the account ...
-MInv_Unvested == V.exists => CLE(UnvestedR(V, st.now, "read"), V.bank)
+MInv_Unvested == Bound(V) => CLE(UnvestedR(V, st.now, "read"), V.bank)
 \* ... and every step satisfies every clause of P
 MStep_P == [][hist' # hist => StepOK(hist'[Len(hist')], st, st')]_vars
 \* sanity of the machine itself: nothing goes negative
@@ -618,7 +685,7 @@ SimTick(h) ==
                ELSE LET t == (IF Pick(1..3, h) = 1 THEN Pick(fut, h) ELSE SetMin(fut)) IN
                     t + PickSeq(<<-1, 0, 0, 1>>, h)
         dt  == IMax(1, tgt - st.now)
-    IN /\ st' = [st EXCEPT !.now = @ + dt, !.va[A] = EndBlockV(V, st.now + dt)]
+    IN /\ st' = Carry(st, [st EXCEPT !.now = @ + dt, !.va[A] = EndBlockV(V, st.now + dt)])
        /\ hist' = Append(hist, [ev |-> "tick", args |-> [dt |-> dt], ok |-> TRUE])
        /\ UNCHANGED <<ini, slashed>>
 SimSlash ==
@@ -641,7 +708,7 @@ SimCreate ==
            /\ UNCHANGED <<hist, slashed>>
 
 SimNext ==
-    IF ~V.exists THEN SimCreate
+    IF ~Bound(V) /\ hist = <<>> THEN SimCreate
     ELSE
     /\ Len(hist) < MaxLen
     /\ \/ SimDebit(hist) \/ SimDebit(hist) \/ SimDebit(hist)
@@ -650,6 +717,7 @@ SimNext ==
        \/ SimRebond(hist)
        \/ SimTick(hist) \/ SimTick(hist)
        \/ (Pick(1..3, hist) = 1 /\ ClawbackAct)
+       \/ (Pick(1..2, hist) = 1 /\ Do(Pick({"convert_back", "exec_convert_back"}, hist), Args(ZC, ZC, "0", "-")))
        \/ (Pick(1..2, hist) = 1 /\ SimMerge(hist))
        \/ (Pick(1..2, hist) = 1 /\ SimLiquidate(hist))
        \/ (Pick(1..2, hist) = 1 /\ FundAct)
